@@ -298,7 +298,51 @@ class SwapIndependent(ast.NodeTransformer):
         return node
 
 
+class AddUnrelated(ast.NodeTransformer):
+    """every module gets an unused helper function and every class an unused method"""
+
+    def visit_Module(self, node):
+        self.generic_visit(node)
+        node.body.append(ast.parse("def _unused_helper_(value):\n    return value\n").body[0])
+        return node
+
+    def visit_ClassDef(self, node):
+        self.generic_visit(node)
+        if any(isinstance(b, ast.Name) and b.id in ('NamedTuple', 'Enum', 'Protocol') for b in node.bases):
+            return node
+        node.body.append(ast.parse("def _unused_method_(self):\n    return repr(self)\n").body[0])
+        return node
+
+
+class StripDocstrings(ast.NodeTransformer):
+    """docstrings of modules, classes and functions are removed"""
+
+    def generic_visit(self, node):
+        super().generic_visit(node)
+        if isinstance(node, (ast.Module, ast.ClassDef, ast.FunctionDef, ast.AsyncFunctionDef)) and node.body:
+            f = node.body[0]
+            if isinstance(f, ast.Expr) and isinstance(f.value, ast.Constant) and isinstance(f.value.value, str):
+                node.body = node.body[1:] or [ast.Pass()]
+        return node
+
+
+class StripAnnotations(ast.NodeTransformer):
+    """parameter and return annotations of functions are removed (annotations are not evaluated by a call)"""
+
+    def visit_FunctionDef(self, node):
+        self.generic_visit(node)
+        if any(isinstance(d, ast.Name) and d.id == 'dataclass' for d in node.decorator_list):
+            return node
+        for a in node.args.posonlyargs + node.args.args + node.args.kwonlyargs + [x for x in (node.args.vararg, node.args.kwarg) if x]:
+            a.annotation = None
+        node.returns = None
+        return node
+
+
 TRANSFORMS = {
+    'add-unrelated': lambda: AddUnrelated(),
+    'strip-docstrings': lambda: StripDocstrings(),
+    'strip-annotations': lambda: StripAnnotations(),
     'swap-independent': lambda: SwapIndependent(),
     'else-after-jump': lambda: ElseAfterJump(),
     'negate-and-swap': lambda: NegateAndSwap(),
